@@ -62,6 +62,15 @@ class Chooser:
                     break
         elif self.forced and label.startswith(self.forced[0][0]):
             _, val = self.forced.pop(0)
+            if callable(val):
+                val = val(n, weights)
+        if isinstance(val, list):
+            # restricted choice: an ordinary choice point among the allowed indices
+            if len(val) == 1:
+                val = val[0]
+            else:
+                weights = [(weights[i] if weights is not None else 1) if i in val else 0 for i in range(n)]
+                val = None
         if val is not None:
             if not 0 <= val < n:
                 raise ReplayError(f"forced answer {val} out of range at {label!r}")
